@@ -311,6 +311,12 @@ class Lib:
             return res
         if ia is not None and ia.kind == "b":
             old = d.sel
+            if va is not None and va.ndim == 1 and ia.ndim == 1 and d.ndim == 1:
+                # a[mask] = w: w[t] lands at the t-th True position of mask (positions = those of the filter by this mask value)
+                self.filter(E, ArrData(ia.shape, lambda i: i, "i"), ia, st)      # creates / re-assumes the position functions of this mask
+                _, m_, pos_, inv_, _ = ia._filter_memo
+                st.assume(m_ == to_int(va.shape[0]))                               # numpy raises on a length mismatch
+                return ArrData(d.shape, lambda i: _ite_val(z3bool(ia.sel(i)), va.sel(inv_(i)), old(i)), kind)
             if va is not None and va.ndim >= 1:
                 raise Unsupported("mask store of array")
             return ArrData(d.shape, lambda *i: _ite_val(z3bool(ia.sel(*i[:ia.ndim])), v, old(*i)), _join_kind(kind, v))
@@ -1425,6 +1431,8 @@ def _typenames(t):
 def _dtype_kind(dt, default):
     if dt is None:
         return default
+    if isinstance(dt, Opaque):
+        return "o"                    # a dtype that is only known at run time: entries are opaque values
     n = dt.name if isinstance(dt, (GlobalName, ModuleVal)) else None
     if n in ("int", "np.int64", "np.int32", "np.intp"):
         return "i"
